@@ -356,8 +356,41 @@ func init() {
 				}
 			}
 		}
+		// never left without a result: some eligible command contains the query's characters in
+		// order, no threshold, nothing matches lexically => the fallback answers. Commands of another
+		// platform (ineligible) may match better and come first.
+		host := "linux"
+		if probe := (&database.Database{Commands: []database.Command{{Command: "zzprobe", Description: "zzprobe", Platform: []string{"linux"}}}}); len(probe.SearchUniversal("zzprobe", database.SearchOptions{Limit: 1, NoCrossPlatform: true})) == 0 {
+			host = "" // not a linux host: skip the platform-dependent part
+		}
+		for it := 0; host != "" && it < 200; it++ {
+			db := &database.Database{}
+			nOther := 1 + rng.Intn(25)
+			w := diffWords[rng.Intn(len(diffWords))]
+			for len(w) < 5 {
+				w = diffWords[rng.Intn(len(diffWords))]
+			}
+			typo := w[:2] + w[3:]
+			for i := 0; i < nOther; i++ {
+				db.Commands = append(db.Commands, database.Command{Command: fmt.Sprintf("%s%d", typo, i), Description: "other platform", Platform: []string{"windows"}})
+			}
+			db.Commands = append(db.Commands, database.Command{Command: "x " + w + " tool for this host", Description: "long text " + strings.Repeat("pad ", rng.Intn(6)), Platform: []string{host}})
+			rng.Shuffle(len(db.Commands), func(i, j int) { db.Commands[i], db.Commands[j] = db.Commands[j], db.Commands[i] })
+			db.BuildUniversalIndex()
+			lim := 1 + rng.Intn(4)
+			res := db.SearchUniversal(typo, database.SearchOptions{Limit: lim, UseFuzzy: true, NoCrossPlatform: true})
+			r.Cases++
+			if len(res) == 0 {
+				fail("query %q, limit %d, %d better matches for another platform: an eligible command contains the query's characters in order but the fallback returned nothing", typo, lim, nOther)
+			}
+			for _, x := range res {
+				if len(x.Command.Platform) == 1 && x.Command.Platform[0] == "windows" {
+					fail("query %q: fallback returned a command for another platform", typo)
+				}
+			}
+		}
 		r.Falsified = bad
-		r.Checked = []string{"typo tolerance never changes an answer that exists without it", "fallback results are genuine matches of quality >= threshold"}
+		r.Checked = []string{"typo tolerance never changes an answer that exists without it", "fallback results are genuine matches of quality >= threshold", "an eligible subsequence match is never left without a result (no threshold), even behind better matches that are filtered out"}
 		return r
 	}
 }
